@@ -22,7 +22,7 @@ class P(EngProp):
     rule = ("per case one rewriting stage (or a chain of two) after an always-true selector over 2-8 records with random attributes: label_format renames (dst absent/present, "
             "src absent/present, self-rename, chains), label_format templates, line_format templates (text, .label, __line__, __timestamp__, ToUpper/ToLower, a call failing on "
             "some records only, a call failing always), the same line_format template in two stages of one query and one query evaluated twice in one process, drop/keep with names and =,!=,=~,!~ value matchers incl. name+matcher on one label, two or three matchers on the same label and values containing one another, "
-            "drop / keep value matchers on labels that `| json` extracted from numbers and booleans, decolorize on lines with CSI sequences introduced by ESC [ or by the single 8-bit introducer U+009B. For every entry the generator computes the expected line and the expected full label set from the LogQL reading of the stage; "
+            "drop / keep value matchers on labels that `| json` extracted from numbers and booleans, a failing template followed by drop / keep (the error labels are ordinary labels to them), decolorize on lines with CSI sequences introduced by ESC [ or by the single 8-bit introducer U+009B. For every entry the generator computes the expected line and the expected full label set from the LogQL reading of the stage; "
             "the check demands them on the observed result, demands that no entry is dropped (count = N), and compares with the model.")
 
     def gen(self, rng, tier):
@@ -30,7 +30,7 @@ class P(EngProp):
         g = EGen(rng)
         cases = []
         for i in range(n):
-            kind = ["rename", "mixed", "tmpl", "linefmt", "linefmt", "drop", "keep", "decolor", "chain", "rename", "mixed", "drop", "dupfmt", "twice", "typed"][i % 15]
+            kind = ["rename", "mixed", "tmpl", "linefmt", "linefmt", "drop", "keep", "decolor", "chain", "rename", "mixed", "drop", "dupfmt", "twice", "typed", "errkeep"][i % 16]
             cases.append(self.one(rng, g, kind))
         return cases
 
@@ -139,8 +139,8 @@ class P(EngProp):
                 return v, d
             apply(f)
 
-        def do_dropkeep(which):
-            nm = rng.sample(names + ["nosuch"], rng.randint(0, 2))
+        def do_dropkeep(which, extra=()):
+            nm = rng.sample(names + ["nosuch"] + list(extra), rng.randint(0, 2))
             ms = []
             same = rng.choice(names) if rng.random() < 0.35 else None       # several matchers on ONE label: each list item selects on its own
             for _ in range(rng.randint(2, 3) if same else (rng.randint(0, 2) if nm else rng.randint(1, 2))):
@@ -231,6 +231,16 @@ class P(EngProp):
             do_dropkeep(kind)
         elif kind == "decolor":
             do_decolor()
+        elif kind == "errkeep":
+            # a template that fails (on some or all records) flags __error__ / __error_details__; the drop / keep stage after it treats
+            # those two labels like any other: keep removes them unless listed, drop removes them only when named
+            for _ in range(40):
+                save = (list(pipe), list(exp))
+                (do_tmpl if rng.random() < 0.5 else do_linefmt)()
+                if any(B("__error__") in d for _, _, d in exp):
+                    break
+                del pipe[:]; pipe.extend(save[0]); exp[:] = save[1]
+            do_dropkeep(rng.choice(["keep", "keep", "drop"]), extra=["__error__", "__error_details__", "__error__"])
         else:
             for k in rng.sample(["rename", "tmpl", "linefmt", "drop", "keep"], 2):
                 {"rename": do_rename, "tmpl": do_tmpl, "linefmt": do_linefmt, "drop": lambda: do_dropkeep("drop"), "keep": lambda: do_dropkeep("keep")}[k]()
